@@ -405,33 +405,43 @@ def data_generator(data, fun=_data_split, args=(), kwargs=None, MAX_ITER=1000):
     """Data generator: call ``fun`` to each ``data`` as a generator. The extra arguments will be passed to ``fun``."""
     kwargs = kwargs if kwargs is not None else {}
 
-    def _gen(dat):
+    def _has_leaf(dat):
         if isinstance(dat, dict):
-            if not dat:
-                for i in range(MAX_ITER):
-                    yield {}
+            return any(_has_leaf(v) for v in dat.values())
+        if isinstance(dat, (list, tuple)):
+            return any(_has_leaf(v) for v in dat)
+        return True
+
+    def _repeat(factory, endless):
+        # an empty container follows its siblings (zip stops with them);
+        # without any array around it, MAX_ITER items are generated
+        i = 0
+        while endless or i < MAX_ITER:
+            yield factory()
+            i += 1
+
+    def _gen(dat, endless=False):
+        if isinstance(dat, (dict, list, tuple)) and not dat:
+            yield from _repeat(type(dat), endless)
+            return
+        endless = endless or _has_leaf(dat)
+        if isinstance(dat, dict):
             ks, vs = [], []
             for k, v in dat.items():
                 ks.append(k)
-                vs.append(_gen(v))
+                vs.append(_gen(v, endless))
             for s_data in zip(*vs):
                 yield type(dat)(zip(ks, s_data))
         elif isinstance(dat, list):
-            if not dat:
-                for i in range(MAX_ITER):
-                    yield []
             vs = []
             for v in dat:
-                vs.append(_gen(v))
+                vs.append(_gen(v, endless))
             for s_data in zip(*vs):
                 yield list(s_data)
         elif isinstance(dat, tuple):
-            if not dat:
-                for i in range(MAX_ITER):
-                    yield ()
             vs = []
             for v in dat:
-                vs.append(_gen(v))
+                vs.append(_gen(v, endless))
             for s_data in zip(*vs):
                 yield s_data
         else:
